@@ -534,7 +534,90 @@ def F53(fil):
     return bool(bad), f"rfft -> to_spec -> from_spec -> ifft (n, transform length, returned length): {bad}"
 
 
-ALL = {k: v for k, v in globals().items() if k.startswith("F") and k[1:].isdigit()}
+def F54(fil):
+    from sigpyproc.core import kernels
+    bad = []
+    for f in (49, 98, 103, 107, 196):
+        r = kernels.downsample_1d_mean(np.full(f * 3, 100, dtype=np.uint8), f)
+        if not np.all(r == 100):
+            bad.append((f, r.tolist()))
+    r2 = kernels.downsample_2d_mean_flat(np.full(7 * 7 * 4, 100, dtype=np.uint8), 7, 7, 14, 14)
+    if not np.all(r2 == 100):
+        bad.append(("7x7", r2.tolist()))
+    return bool(bad), f"mean of a constant-100 uint8 block (factor, result): {bad}"
+
+
+def F55(fil):
+    out = outcome(lambda: fil.extract_chans(chans=[0, -1], outfile_base="f55", quiet=True))
+    return out[0] != "exc" or "ValueError" not in str(out[1]), f"extract_chans(chans=[0, -1]) -> {str(out)[:160]}"
+
+
+def F56(fil):
+    blk = fil.read_block(10, 20)
+    pad = blk.pad_samples(40, 7)
+    want = blk.header.mjd_after_nsamps(-7)
+    return abs(pad.header.tstart - want) > 1e-12, f"pad_samples(40, 7): tstart {pad.header.tstart!r}, expected {want!r} (block began at {blk.header.tstart!r})"
+
+
+def F57(fil):
+    from sigpyproc.readers import FilReader
+    blk = fil.read_block(0, 64).dedisperse(30.0)
+    name = blk.to_file("f57_dm30.fil")
+    back = FilReader(name).read_block(0, 32)
+    again = FilReader(back.to_file("f57_again.fil")).header.dm
+    return back.dm != 30.0 or again != 30.0, f"file written at DM 30: read_block().dm = {back.dm}, refdm after writing that block back = {again}"
+
+
+def F58(fil):
+    from sigpyproc.block import FilterbankBlock
+    hdr = fil.header.new_header({"nsamples": 512})
+    x = np.zeros((hdr.nchans, 512), dtype=np.float32)
+    x[:, 300] = 1
+    twice = FilterbankBlock(x, hdr).dedisperse(10).dedisperse(20)
+    shift = 300 - np.argmax(twice.data, axis=1)
+    d20, d30 = hdr.get_dmdelays(20), hdr.get_dmdelays(30)
+    return int(np.abs(shift - d20).max()) > 1, (f"dedisperse(10).dedisperse(20): label {twice.dm}, max |shift - delays(20)| = {int(np.abs(shift - d20).max())}, "
+                                                 f"max |shift - delays(30)| = {int(np.abs(shift - d30).max())}")
+
+
+def F59(fil):
+    from sigpyproc.core import rfi
+    hdr = fil.header.new_header({"signed": True})
+    z = np.arange(hdr.nchans, dtype=np.float32)
+    mask = rfi.RFIMask(3.0, hdr, z, z, z, z, z, z)
+    gen1 = rfi.RFIMask.from_file(mask.to_file("f59_a.h5"))
+    gen2 = rfi.RFIMask.from_file(gen1.to_file("f59_b.h5"))
+    return bool(gen1.header.signed) != bool(gen2.header.signed), f"signed: loaded {gen1.header.signed}, loaded -> saved -> loaded {gen2.header.signed}"
+
+
+def F60(fil):
+    from sigpyproc.core.stats import ChannelStats
+    st = ChannelStats(2, 1000)
+    x = np.zeros((1000, 2), dtype=np.float32)
+    x[::2, 0] = 2.0**28          # values {0, 2**28}: two-point distribution, kurtosis -2
+    x[:, 1] = np.random.default_rng(1).normal(0, 3e8, 1000).astype(np.float32)
+    st.push_data(x.ravel(), 0, mode="full")
+    m2 = st.moments["m2"].astype(np.float64)
+    true = st.moments["m4"].astype(np.float64) / m2**2 * st.nsamps - 3
+    with np.errstate(all="ignore"):
+        got = np.asarray(st.kurtosis, dtype=np.float64)
+    return not np.allclose(got, true, rtol=1e-3, atol=1e-3), f"kurtosis {got.tolist()} vs m4/m2^2*n-3 in float64 {true.tolist()}"
+
+
+def K01(fil):
+    # known finding, not repaired: samples that are not a whole number of bytes (4-bit x 1 channel)
+    from sigpyproc.readers import FilReader
+    samples = np.arange(12, dtype=np.uint8)            # value == sample index
+    w = hdr(12, 1, nbits=4).prep_outfile("k01.fil", nbits=4)
+    w.cwrite(samples)
+    w.close()
+    r = FilReader("k01.fil")
+    whole = r.read_block(0, 12).data[0].astype(int).tolist()
+    got = r.read_block(2, 2).data[0].astype(int).tolist()
+    return whole == list(range(12)) and got != [2, 3], f"4-bit x 1 channel, samp_stride={r.samp_stride}: read_block(0, 12) = {whole}; read_block(2, 2) = {got}, expected [2, 3]"
+
+
+ALL = {k: v for k, v in globals().items() if k[:1] in ("F", "K") and k[1:].isdigit()}
 
 
 def main(argv: list[str]) -> int:
